@@ -60,7 +60,14 @@ pub fn parse_block_table<R: Read + Seek>(
     block_count: u16,
     file_key_size: u8,
 ) -> PatchArchiveResult<Vec<PatchBlock>> {
-    let mut blocks = Vec::with_capacity(block_count as usize);
+    // The count is untrusted: reserve at most what the remaining input can hold
+    // (a table entry is key + 16-byte MD5 + 4-byte offset).
+    let pos = reader.stream_position()?;
+    let end = reader.seek(SeekFrom::End(0))?;
+    reader.seek(SeekFrom::Start(pos))?;
+    let entry_size = u64::from(file_key_size) + 20;
+    let max_blocks = usize::try_from(end.saturating_sub(pos) / entry_size).unwrap_or(usize::MAX);
+    let mut blocks = Vec::with_capacity((block_count as usize).min(max_blocks));
 
     for _ in 0..block_count {
         let last_file_ckey = read_key(reader, file_key_size)?;
